@@ -140,6 +140,7 @@ def main(argv=None):
     if new_fail:
         os.makedirs(os.path.join(OUT, "replays"), exist_ok=True)
         seen_sig = {}
+        unstable = []
         for f in new_fail:
             seen_sig.setdefault(f["sig"], f)
         for n, (sig, f) in enumerate(list(seen_sig.items())[:20]):
@@ -147,12 +148,14 @@ def main(argv=None):
                 a = p1.apply(_replay_once, ((pid, f["case"]),))
             with ctx.Pool(1, maxtasksperchild=1) as p2:
                 b = p2.apply(_replay_once, ((pid, f["case"]),))
-            if a.get("ok", False) != b.get("ok", False):
-                sys.stderr.write(f"HARNESS ERROR: replay of {f['case']!r:.300} is not deterministic\n{a}\n{b}\n")
-                return 2
-            if a.get("ok", False):
-                sys.stderr.write(f"HARNESS ERROR: failure does not reproduce on replay: {f!r:.600}\n")
-                return 2
+            if a.get("ok", False) != b.get("ok", False) or a.get("ok", False):
+                # This failure was seen during the exploration but not (or not both times) in a fresh process.  Only failures that
+                # replay identically twice are reported as violations; an unstable one is kept aside, and the run is a harness
+                # error if NO failure of it is reproducible (a change whose effect depends on object addresses typically leaves
+                # some reproducible failures and some that are not).
+                unstable.append({"sig": sig, "case": f["case"], "first_replay_ok": a.get("ok", False), "second_replay_ok": b.get("ok", False)})
+                sys.stderr.write(f"UNSTABLE (not reported as violation): {sig} {f['case']!r:.300}\n")
+                continue
             if json.dumps(a, sort_keys=True, default=repr) != json.dumps(b, sort_keys=True, default=repr):
                 # both replays violate the property but differ in detail: the implementation itself iterates a
                 # set of objects hashed by address; the violation stands, the difference is recorded
@@ -165,6 +168,9 @@ def main(argv=None):
                      "replay_cmd": f"./check {pid} --replay {path}"},
                     fh, indent=1, default=repr)
             viol_lines.append(f"VIOLATION property={pid} replay={path}")
+        if not viol_lines:
+            sys.stderr.write("HARNESS ERROR: none of the failures seen during the exploration reproduces on replay\n")
+            return 2
         exit_code = 1
 
     for sig, (entry, cnt) in sorted(known_hits.items()):
